@@ -153,6 +153,8 @@ func (cp *Processor) checkPutContainer(cnr container.Container, cnrBytes, sessio
 		ownerContainer:  cnr.Owner(),
 		verb:            session.VerbContainerPut,
 		verbV2:          sessionv2.VerbContainerPut,
+		idContainerSet:  true,
+		idContainer:     cid.NewFromMarshalledContainer(cnrBytes),
 		binTokenSession: sessionToken,
 		verifScript:     verifScript,
 		invocScript:     invocScript,
